@@ -2,11 +2,13 @@
 The verdict does not depend on the model: a real panic / hang / modified input IS the violation.
 The model side (tot.* ops backed by the Coq models, where present) is compared as a fidelity case."""
 import os
+HERE = os.path.dirname(os.path.abspath(__file__))
 from vlib import Case, hx, parse_val
 
 PROP = "C05"
-PROOF_FILES = ["Properties/C05.v"]
-HERE = os.path.dirname(os.path.abspath(__file__))
+import glob as _g
+PROOF_FILES = sorted("Properties/" + os.path.basename(p) for p in _g.glob(os.path.join(os.path.dirname(HERE), "..", "coq", "theories", "Properties", "C05*.v")))
+
 
 ENTRIES = ["pkt.read", "pkt.setpayload", "pkt.setpayloadfn", "pkt.setafc", "af.getters", "af.setters", "affn",
            "psi.accessors", "psi.pat", "psi.pmt", "psi.done", "psi.crc", "psi.filter", "psi.readpat", "psi.readpmt",
